@@ -283,6 +283,11 @@ def c06(res):
     res.models.append(prove("TileCoverProof", wd))
     bitmaps = os.path.join(wd, "bitmaps.out")
     res.gens.append(generate("MC_Render2D", "Render2DGen.cfg", wd, bitmaps, workers=4, timeout=1500))
+    for cfg in ("Render2DGen_4x2.cfg", "Render2DGen_3x3.cfg"):       # 256 + 512 inside sets of images with overhanging root tiles
+        part = os.path.join(wd, cfg.replace(".cfg", ".out"))
+        res.gens.append(generate("MC_Render2D", cfg, wd, part, workers=4, timeout=1500))
+        with open(bitmaps, "a") as f:
+            f.write(open(part).read())
     trace = os.path.join(wd, "trace.ndjson")
     if not run_recorder(res, "raster", ["c06", bitmaps, res.tier, trace], wd, timeout=3000):
         return res.finish("recorder crashed")
